@@ -22,7 +22,8 @@
                       it returned a false value (object returned) or an exception ended the hold phase
      rounds           terminate() poll, then the rdwr, llcp, card segments in this order, repeated *)
 From Coq Require Import ZArith List Bool.
-From NV Require Import Model.Connect Proofs.ConnectSense Proofs.Connect Proofs.ConnectTrace Proofs.ConnectFuel.
+From NV Require Import Model.Connect Proofs.ConnectSense Proofs.Connect Proofs.ConnectTrace Proofs.ConnectFuel
+  Skel.ConnectSyntax Skel.ConnectRun Gen.ConnectSkel Bridge.Connect.
 Import ListNotations.
 
 (* --- callback order: on-startup (llcp, rdwr, card) first, then per round rdwr, llcp, card with
@@ -117,6 +118,49 @@ Theorem C18_target_fresh : forall ops pre r l s post,
   exchange_uses (latest_from None pre) r l.
 Proof. exact target_fresh_proof. Qed.
 Print Assumptions C18_target_fresh.
+
+(* --- translation tie: the model functions ARE the interpreter Skel/ConnectRun.v applied to the control
+       skeleton that translate/kspec_c18.py cut out of src/nfc/clf/__init__.py on this run (Gen/ConnectSkel.v):
+       order of the observable actions on every path, the except clauses and their return values, the
+       decision expressions, the option preparation, the sense / listen / exchange tables --- *)
+Theorem C18_bridge_rdwr_connect : forall fuel has rr s,
+  rdwr_connect fuel has rr s = run_body (cx_rdwr fuel has rr) fuel gen_rdwr_connect s.
+Proof. exact bridge_rdwr_connect. Qed.
+Print Assumptions C18_bridge_rdwr_connect.
+Theorem C18_bridge_llcp_connect : forall has o s,
+  llcp_connect has o s = run_body (cx_llcp has o) O gen_llcp_connect s.
+Proof. exact bridge_llcp_connect. Qed.
+Print Assumptions C18_bridge_llcp_connect.
+Theorem C18_bridge_card_connect : forall fuel has cr s,
+  card_connect fuel has cr s = run_body (cx_card fuel has cr) fuel gen_card_connect s.
+Proof. exact bridge_card_connect. Qed.
+Print Assumptions C18_bridge_card_connect.
+Theorem C18_bridge_main_loop : forall fuel inner has a s,
+  main_loop fuel inner has a s = run_main (cx_main inner has a) fuel gen_main_loop s.
+Proof. exact bridge_main_loop. Qed.
+Print Assumptions C18_bridge_main_loop.
+(* connect() as a whole: device test, option preparation in the extracted order with the extracted keep tests, main loop *)
+Theorem C18_bridge_connect : forall dev o fuel inner s,
+  connect dev o fuel inner s = connect_i gen_startup gen_default_targets gen_main_loop dev o fuel inner s.
+Proof. exact bridge_connect. Qed.
+Print Assumptions C18_bridge_connect.
+Theorem C18_bridge_defaults :
+  default_targets = gen_default_targets /\ gen_default_iterations = 5%Z /\ gen_default_beep = true /\
+  (forall a b, gen_on_discover a b = negb (a || b)) /\
+  forallb (fun e => forallb snd (se_cb_defaults e)) gen_startup = true.
+Proof. exact bridge_defaults. Qed.
+Print Assumptions C18_bridge_defaults.
+Theorem C18_bridge_sense : forall dev call ts iters tb stored,
+  sense dev call ts iters tb stored =
+  sense_i gen_sense_skel (fun z => Z.to_nat (gen_sense_niter z)) dev call ts iters tb stored.
+Proof. exact bridge_sense. Qed.
+Print Assumptions C18_bridge_sense.
+Theorem C18_bridge_listen : forall dev n t o stored, listen dev n t o stored = listen_i gen_listen_skel dev n t o stored.
+Proof. exact bridge_listen. Qed.
+Print Assumptions C18_bridge_listen.
+Theorem C18_bridge_exchange : forall dev stored, exchange dev stored = exchange_i gen_exchange_skel dev stored.
+Proof. exact bridge_exchange. Qed.
+Print Assumptions C18_bridge_exchange.
 
 (* --- non-vacuity: a run with all three blocks; a tag is found in the second round, on-connect
        returns 'x' (true), the tag leaves, on-release returns None: result True --- *)
